@@ -253,7 +253,7 @@ class FieldCheckInfo(CheckInfo):  # pylint:disable=too-few-public-methods
 
     def __init__(
         self,
-        fields: Set[Union[str, FieldInfo]],
+        fields: Iterable[Union[str, FieldInfo]],
         check_fn: AnyCallable,
         regex: bool = False,
         **check_kwargs: Any,
@@ -272,7 +272,7 @@ class FieldParserInfo(ParserInfo):  # pylint:disable=too-few-public-methods
 
     def __init__(
         self,
-        fields: Set[Union[str, FieldInfo]],
+        fields: Iterable[Union[str, FieldInfo]],
         parser_fn: AnyCallable,
         regex: bool = False,
         **parser_kwargs: Any,
@@ -315,7 +315,7 @@ def check(*fields, regex: bool = False, **check_kwargs) -> ClassCheck:
         setattr(
             check_method,
             CHECK_KEY,
-            FieldCheckInfo(set(fields), check_fn, regex, **check_kwargs),
+            FieldCheckInfo(fields, check_fn, regex, **check_kwargs),
         )
         return check_method
 
@@ -363,7 +363,7 @@ def parser(*fields, **parser_kwargs) -> ClassParser:
         setattr(
             parser_method,
             PARSER_KEY,
-            FieldParserInfo(set(fields), parser_fn, **parser_kwargs),
+            FieldParserInfo(fields, parser_fn, **parser_kwargs),
         )
         return parser_method
 
